@@ -1,6 +1,6 @@
-\* the design as it should be, larger bounds
+\* the code BEFORE the repair 81b03b7: handle and writer registration are two steps -- must violate AckedRowsDurable (the lost row is covered by a later acknowledgement)
 CONSTANTS
-  Leader = {1, 2}
+  Leader = {1}
   MaxRow = 3
   MaxObj = 2
   MaxDb = 3
@@ -10,8 +10,8 @@ CONSTANTS
   CloseLocksFirst = FALSE
   RetryFailed = TRUE
   ClosedRejects = TRUE
-  AtomicWrite = TRUE
-  RegisterAtGet = TRUE
+  AtomicWrite = FALSE
+  RegisterAtGet = FALSE
   AtomicEvict = TRUE
   UniqueStamp = TRUE
   EvictChecksRef = TRUE
@@ -19,6 +19,5 @@ CONSTANTS
   CloseFlushes = TRUE
   AckFrozen = TRUE
 SPECIFICATION MCSpec
-INVARIANTS TypeOK FlushShape FlushedOnce VisibleAtMostOnce AcceptedVisible AckNotAhead AckedRowsDurable EvictOnlyIdle ClosedIsFlushed NoLateWrite NoStuck NoIgnoredFlush
-PROPERTIES FrozenNeverGrows
+INVARIANTS AckedRowsDurable
 CHECK_DEADLOCK FALSE
